@@ -466,6 +466,24 @@ def intervals(rep, idx, rule="C02.6"):
         if len(cmps) == 2:
             found = cmps
     if found is None:
+        # the same test as the path condition of the return that hands out a value (guard clauses, nested ifs, De Morgan)
+        def conj(e, pol):
+            e = g.norm(e)
+            if e[0] == 'un' and e[1] == 'not':
+                return conj(e[2], not pol)
+            if pol and e[0] == 'and':
+                return [y for x in e[1] for y in conj(x, True)]
+            if not pol and e[0] == 'or':
+                return [y for x in e[1] for y in conj(x, False)]
+            return [(e, pol)]
+        for v, gen, ln in g.t.returns:
+            if g.norm(v) == ('const', None):
+                continue
+            lits = [y for fr in gen if fr[0] == 'pyif' for y in conj(fr[1], fr[2])]
+            cmps = [(p_, pol) for p_, pol in lits if p_[0] == 'cmp' and ('name', 'point') in (p_[2], p_[3])]
+            if len(cmps) == 2:
+                found = cmps
+    if found is None:
         rep.unk(rule, fi.site, "get(): membership test", "no two-sided comparison of the point with a range found")
     else:
         # canonical order relation is '<' (a <= b is not (b < a)); membership is  not (point < start)  and  point < stop
